@@ -379,8 +379,10 @@ def _classify_write(prog, f, n, R, toupper_ok, ptr=None):
                     return 'ok', 'string', 'string resized by %s to %s characters, exactly that many written' % (hf.name, P.show(sp))
                 return 'violation', 'string', 'byte count %s is not the length %s the helper %s gives the string' % ('/'.join(P.show(w) for w in widths), P.show(sp), hf.name)
             return 'undecided', 'string', 'the string comes from %s, whose result length the rule cannot read' % so['callee'].get('qname')
+        import codec_rules as _CRn
         for w in widths:
-            if not P.equal(w, {(atom,): 1}):
+            wn = {tuple(_CRn.upper_len_norm(prog, a_) for a_ in mono): c_ for mono, c_ in w.items()} if isinstance(w, dict) else w
+            if not P.equal(w, {(atom,): 1}) and not P.equal(wn, {(_CRn.upper_len_norm(prog, atom),): 1}):
                 return 'violation', 'string', 'byte count %s is not the size of the string being written (%s): bytes past its end would be emitted' % (P.show(w), atom)
         return 'ok', 'string', 'exactly %s characters' % atom
     if m['k'] == 'DeclRefExpr' and m['decl'].get('dk') == 'local':
